@@ -478,6 +478,46 @@ class Opaque:
         return "Opaque(%s)" % self.what
 
 
+class StrLit(Opaque):
+    """A string / byte-string literal of the MIR dump; `.value` is the decoded str / bytes (None if truncated)."""
+    __slots__ = ("value",)
+
+    def __init__(self, text):
+        Opaque.__init__(self, text[:40])
+        self.value = decode_literal(text)
+
+
+def decode_literal(t):
+    isb = t.startswith("b")
+    body = t[2:] if isb else t[1:]
+    if not body.endswith('"'):
+        return None
+    body = body[:-1]
+    out = bytearray()
+    i = 0
+    esc = {"n": 10, "t": 9, "r": 13, "0": 0, "\\": 92, '"': 34, "'": 39}
+    while i < len(body):
+        c = body[i]
+        if c == "\\" and i + 1 < len(body):
+            n = body[i + 1]
+            if n == "x":
+                out.append(int(body[i + 2:i + 4], 16))
+                i += 4
+                continue
+            if n == "u":
+                j = body.index("}", i)
+                out += chr(int(body[i + 3:j], 16)).encode()
+                i = j + 1
+                continue
+            if n in esc:
+                out.append(esc[n])
+                i += 2
+                continue
+        out += c.encode()
+        i += 1
+    return bytes(out) if isb else out.decode("utf-8", "replace")
+
+
 def clone_val(v):
     if isinstance(v, Tuple):
         return Tuple([clone_val(x) for x in v.fields])
@@ -773,7 +813,7 @@ class Engine:
         if re.search(r"consts::PI$", t):
             return PI
         if t.startswith('"') or t.startswith('b"'):
-            return Opaque(t[:40])
+            return StrLit(t)
         if t.startswith("PhantomData") or t.startswith("ZeroSized: PhantomData"):
             return Opaque("PhantomData")
         if t == "RangeFull":
